@@ -42,6 +42,8 @@ struct Gate {
     arg0: Option<u64>,
     until_event: String,
     until_actor: Option<u32>,
+    /// number of occurrences of the awaited event (after parking) that opens the gate
+    count: usize,
     used: bool,
 }
 
@@ -67,11 +69,13 @@ impl SchedHandler {
         let mut g = self.inner.lock().unwrap();
         g.log.push(json!([seq(), actor(), name, args]));
     }
-    fn has_event(&self, name: &str, by: Option<u32>, after: usize) -> bool {
+    fn has_event(&self, name: &str, by: Option<u32>, after: usize, count: usize) -> bool {
         let g = self.inner.lock().unwrap();
-        g.log[after.min(g.log.len())..].iter().any(|e| {
-            e[2].as_str() == Some(name) && by.is_none_or(|a| e[1].as_u64() == Some(a as u64))
-        })
+        g.log[after.min(g.log.len())..]
+            .iter()
+            .filter(|e| e[2].as_str() == Some(name) && by.is_none_or(|a| e[1].as_u64() == Some(a as u64)))
+            .count()
+            >= count.max(1)
     }
 }
 
@@ -126,7 +130,7 @@ impl Handler for SchedHandler {
                 if let Some((gt, start)) = gate {
                     // park until the awaited event has been logged (virtual time bound)
                     let mut waited = 0;
-                    while !this.has_event(&gt.until_event, gt.until_actor, start) {
+                    while !this.has_event(&gt.until_event, gt.until_actor, start, gt.count) {
                         tokio::time::sleep(Duration::from_millis(1)).await;
                         waited += 1;
                         if waited > 3000 {
@@ -264,7 +268,11 @@ async fn sql_actor(db: Arc<Database>, spec: Value) -> Value {
         }
         let timeout = spec["stmt_timeout_ms"].as_u64().unwrap_or(600_000);
         match tokio::time::timeout(Duration::from_millis(timeout), run_sql(&db, sql)).await {
-            Ok(v) => hist.push(v),
+            Ok(v) => {
+                hist.push(v);
+                // client-boundary marker for directed schedules ("until this session acknowledged n statements")
+                risinglight::verif::event("stmt_done", &[hist.len() as u64]);
+            }
             Err(_) => {
                 hist.push(json!({"sql": sql, "ok": false, "err": "virtual-time timeout: statement never completed", "stuck": true}));
                 break;
@@ -336,7 +344,8 @@ async fn run(sc: Value, multi_thread: bool) -> Value {
             arg0: g["arg0"].as_u64(),
             until_event: g["until"].as_str().unwrap_or("").to_string(),
             until_actor: g["until_actor"].as_str().and_then(|n| names.get(n).copied()),
-            used: false,
+            count: g["count"].as_u64().unwrap_or(1) as usize,
+            used: sc["gates_after_setup"].as_bool().unwrap_or(false),
         })
         .collect();
     let handler: &'static SchedHandler = Box::leak(Box::new(SchedHandler {
@@ -378,6 +387,12 @@ async fn run(sc: Value, multi_thread: bool) -> Value {
     }
     if sc["settle_ms"].as_u64().unwrap_or(0) > 0 {
         tokio::time::sleep(Duration::from_millis(sc["settle_ms"].as_u64().unwrap())).await;
+    }
+    if sc["gates_after_setup"].as_bool().unwrap_or(false) {
+        // directed gates on points that the setup statements pass too: arm them only now
+        for g in handler.inner.lock().unwrap().gates.iter_mut() {
+            g.used = false;
+        }
     }
     let log_start = handler.inner.lock().unwrap().log.len();
     // run the actors
